@@ -162,6 +162,28 @@ COROLLARY Union == ASSUME Base = B, W = Keys \ Range(B), FilterInv, i = Len(A) +
   <1>1. Range(out) = Range(Base) \cup (Range(A) \cap W) /\ NoRepeat(out) BY FilterDone
   <1>. QED BY <1>1, RangeA
 
+\* the UNFILTERED scan (iter / keys / values / into_iter / drain: C09, C10): every entry comes out
+\* exactly once, and after m steps exactly m items have been yielded - so the remaining length
+\* Len(A) - m that len() / size_hint() report is exact at every stage
+COROLLARY FullScan == ASSUME Base = <<>>, W = Keys, FilterInv, i = Len(A) + 1
+                      PROVE  Range(out) = Range(A) /\ NoRepeat(out)
+  <1>1. Range(out) = Range(Base) \cup (Range(A) \cap W) /\ NoRepeat(out) BY FilterDone
+  <1>. QED BY <1>1, RangeA, RangeEmpty
+
+LenInv == Len(out) = i - 1
+THEOREM FullScanLen == ASSUME Base = <<>>, W = Keys
+                       PROVE  /\ Init => LenInv
+                              /\ FilterInv /\ LenInv /\ Step => LenInv'
+  <1>1. ASSUME Init PROVE LenInv BY <1>1 DEF Init, LenInv
+  <1>2. ASSUME FilterInv, LenInv, Step PROVE LenInv'
+    <2>0. A \in Seq(Keys) BY Assumptions
+    <2>1. i \in 1..Len(A) /\ i' = i + 1 /\ out \in Seq(Keys) BY <1>2 DEF Step, FilterInv
+    <2>2. A[i] \in W BY <2>0, <2>1
+    <2>3. out' = Append(out, A[i]) BY <1>2, <2>2 DEF Step
+    <2>4. Len(out') = Len(out) + 1 BY <2>3, <2>1
+    <2>. QED BY <2>4, <2>1, <1>2 DEF LenInv
+  <1>. QED BY <1>1, <1>2
+
 (***************************************************************************)
 (* Instances (B = the slot sequence of the other set, pairwise different):  *)
 (*   difference            Base = <<>>,  W = Keys \ Range(B)                 *)
